@@ -422,7 +422,7 @@ def run_distance(shape):
         vals = [z(x if not isinstance(x, np.ndarray) else x.reshape(-1)[0]) for x in path.value]
         # stage 1: the norms the code computes are 1 (lemma per sqrt variable, from the sqrt axioms and the unit premise only)
         subs, lem = [], []
-        for key, (arg, var) in path.sqrts.items():
+        for key, (arg, var, _simp) in path.sqrts.items():
             lem.append((f"norm_is_1[{var}]", var == 1))
             subs.append((var, z3.RealVal(1)))
         r = prover.prove_all(unit + path.axioms, lem, timeout_ms=30000)
